@@ -418,10 +418,37 @@ def rule_r7(F, rep, rid="C19.R7"):
     s1 = F.fn("<%s>::do_std_format_codes_array_1" % E)
     rep.fn(s1)
     body = s1.body
-    names = body.local_names()
-    cursor = [l for l, nm in names.items() if nm == "array_i"]
+    # the cursor variable: whatever is stored in the `array_i` field of the State::StdFormatCodesArray2 this step pushes,
+    # followed back through copies (independent of what the local is called)
+    cursor = set()
+    defs = {}
+    for blk in body.blocks:
+        if blk["cleanup"]:
+            continue
+        for st in blk["s"]:
+            if st["k"] == "assign" and not st["p"]["p"]:
+                defs.setdefault(st["p"]["l"], []).append(st["rv"])
+    for blk in body.blocks:
+        if blk["cleanup"]:
+            continue
+        for st in blk["s"]:
+            rv = st.get("rv") if st["k"] == "assign" else None
+            if rv and rv["k"] == "agg" and rv.get("v") == "StdFormatCodesArray2" and "array_i" in rv.get("fn", []):
+                x = rv["xs"][rv["fn"].index("array_i")]
+                for _ in range(8):
+                    if x.get("k") not in ("move", "copy"):
+                        break
+                    cursor.add(x["l"])
+                    d = defs.get(x["l"], [])
+                    uses = [r for r in d if r["k"] == "use" and r["x"].get("k") in ("move", "copy")]
+                    if len(d) == 1 and uses:
+                        x = uses[0]["x"]
+                        continue
+                    break
+    # `array_i += 1` is lowered as tmp = AddWithOverflow(copy cursor, 1); cursor = move tmp.0 — the left operand is a cursor local
     if not cursor:
-        raise AnchorMissing("do_std_format_codes_array_1: local `array_i`")
+        raise AnchorMissing("do_std_format_codes_array_1: the cursor stored in State::StdFormatCodesArray2.array_i")
+    cursor = list(cursor)
 
     def which_field(place):
         for pr in place["p"]:
